@@ -378,8 +378,8 @@ def shrink(ctx, failure):
 
 def run(ctx, only=None):
     ctx.notes += [
-        "theorem c11_roundtrip covers requests of the form <name> <filter> (find, count); the filter inside list <tag> <filter> and "
-        "count <filter> group <tag> is covered by the correspondence and oracle runs only",
+        "theorems c11_roundtrip / c11_roundtrip_args are about Command::argument(filter) among string arguments; that Find, Count, List "
+        "and Count::group_by build exactly such commands is shown by the correspondence run (and is C15's subject)",
         "spec side (trusted, from memory): MpdTokenizer.v and MpdFilter.v; a leaf of the ported grammar is (word, operator, value): "
         "MPD's tag-table lookup and the special grammar of base/modified-since/AudioFormat/prio are not ported; the theorems hold for "
         "both readings of whether blanks are skipped after the parenthesis closing an AND list (the oracle uses the stricter one)",
